@@ -50,16 +50,16 @@ Definition bd_quo (a b : Z) : Z := chop_round P36 (Z.quot (a * P72) b).
 Definition bd_quo_raw (a i : Z) : Z := chop_round P36 (Z.quot (a * P36) i).
 Definition bd_quo_truncate (a b : Z) : Z := Z.quot (a * P36) b.
 Definition bd_quo_truncate_dec (a b18 : Z) : Z := Z.quot (a * P18) b18.
-(* QuoRoundUp / QuoByDecRoundUp: increments iff rem.Sign() > 0 (sign of the dividend) *)
+(* incBasedOnRemAndDivisor: increment iff remainder non-zero and of the divisor's sign *)
+Definition inc_rem_div (rem divisor d : Z) : Z :=
+  if (rem =? 0) || negb (Z.sgn rem =? Z.sgn divisor) then d else d + 1.
 Definition bd_quo_round_up (a b : Z) : Z :=
-  let m := a * P36 in if 0 <? Z.rem m b then Z.quot m b + 1 else Z.quot m b.
+  let m := a * P36 in inc_rem_div (Z.rem m b) b (Z.quot m b).
 Definition bd_quo_by_dec_round_up (a b18 : Z) : Z :=
-  let m := a * P18 in if 0 <? Z.rem m b18 then Z.quot m b18 + 1 else Z.quot m b18.
-(* QuoRoundUpMut: incBasedOnRem (increments on any non-zero remainder) *)
-Definition bd_quo_round_up_mut (a b : Z) : Z :=
-  let m := a * P36 in inc_based_on_rem (Z.rem m b) (Z.quot m b).
+  let m := a * P18 in inc_rem_div (Z.rem m b18) b18 (Z.quot m b18).
+Definition bd_quo_round_up_mut (a b : Z) : Z := bd_quo_round_up a b.
 Definition bd_quo_round_up_next_int_mut (a b : Z) : Z :=
-  inc_based_on_rem (Z.rem a b) (Z.quot a b) * P36.
+  inc_rem_div (Z.rem a b) b (Z.quot a b) * P36.
 Definition bd_quo_int (a i : Z) : Z := Z.quot a i.
 Definition bd_ceil (a : Z) : Z :=
   let q := Z.quot a P36 in let r := Z.rem a P36 in
@@ -68,7 +68,7 @@ Definition bd_truncate_int (a : Z) : Z := Z.quot a P36.
 Definition bd_truncate_dec (a : Z) : Z := Z.quot a P36 * P36.
 Definition bd_round_int (a : Z) : Z := chop_round P36 a.
 Definition bd_to_dec (a : Z) : Z := Z.quot a P18.                           (* BigDec.Dec: truncation *)
-Definition bd_to_dec_round_up (a : Z) : Z := inc_based_on_rem (Z.rem a P18) (Z.quot a P18). (* DecRoundUp *)
+Definition bd_to_dec_round_up (a : Z) : Z := inc_rem_div (Z.rem a P18) P18 (Z.quot a P18). (* DecRoundUp *)
 Definition bd_from_dec (d18 : Z) : Z := d18 * P18.                          (* BigDecFromDec *)
 Definition bd_from_int (i : Z) : Z := i * P36.
 Definition bd_from_dec_mul_dec (a18 b18 : Z) : Z := a18 * b18.              (* NewBigDecFromDecMulDec *)
